@@ -109,6 +109,36 @@ func (w *world) withinCap(ts []int, n int) bool {
 	return true
 }
 
+// freeRun tells whether device t has an aligned run of 2^k >= n pages none of which is mapped or reserved as a
+// migration source (a filter for the generator, not an oracle).
+func (w *world) freeRun(t, n int) bool {
+	size := uint64(1)
+	for size < uint64(n) {
+		size *= 2
+	}
+	used := map[uint64]bool{}
+	for _, p := range w.dump() {
+		used[p["ppn"].(uint64)] = true
+	}
+	for _, h := range w.held {
+		used[h] = true
+	}
+	d := w.devs[t]
+	for b := d.Base; b+size <= d.Base+d.N; b += size {
+		free := true
+		for p := b; p < b+size; p++ {
+			if used[p] {
+				free = false
+				break
+			}
+		}
+		if free {
+			return true
+		}
+	}
+	return false
+}
+
 // fitsPool mirrors FitsPool of MemAlloc.tla: Allocate on a unified device may take each page from any member.
 func (w *world) fitsPool(ts []int, n int) bool {
 	live, capacity := 0, uint64(0)
@@ -304,7 +334,10 @@ func (w *world) remap(ctx, b, off, n, rem, dev int) bool {
 	bf := &w.bufs[b-1]
 	addr := bf.ptr + uint64(off)*w.psz
 	bytes := bytesFor(n, rem, w.psz)
-	ok := w.call(proc, ab.Rec{"op": "Remap", "pid": proc, "dev": dev, "bytes": bytes}, false, func() {
+	// buddy allocator: a multi-page request fails (before changing anything) when no block is available, which
+	// fragmentation can cause within capacity; the history goes on and the specification judges the panic
+	cont := buddyMode && n >= 2
+	ok := w.call(proc, ab.Rec{"op": "Remap", "pid": proc, "dev": dev, "bytes": bytes}, cont, func() {
 		w.d.Remap(w.ctxs[ctx], addr, bytes, dev)
 	})
 	if !ok {
@@ -613,13 +646,28 @@ func (w *world) valid(op Op) bool {
 		return true
 	}
 	if buddyMode {
-		// Remap/Distribute obtain one buddy block per call: with more than one page per block, internal and
-		// external fragmentation decide whether a call within capacity succeeds; that is outside the property.
-		if op.A == "Remap" && op.N != 1 {
-			return false
+		// Remap and every chunk of Distribute obtain one buddy block (2^k pages, aligned).  Whether a block is
+		// available is decided by the specification (MemAllocTrace, blk); here only calls that obviously cannot be
+		// served are filtered out, so that histories are not wasted: an aligned run of 2^k pages without a mapped
+		// or reserved page must exist on every device the call may draw from.
+		if op.A == "Remap" && op.N >= 2 && op.Dev >= 0 && op.Dev < len(w.devs) {
+			for _, t := range w.targets(op.Dev) {
+				if !w.freeRun(t, op.N) {
+					return false
+				}
+			}
 		}
-		if op.A == "Dist" && op.B >= 1 && op.B <= len(w.bufs) && len(op.Gpus) > 1 && w.bufs[op.B-1].pages > len(op.Gpus) {
-			return false
+		if op.A == "Dist" && op.B >= 1 && op.B <= len(w.bufs) && len(op.Gpus) > 1 && w.bufs[op.B-1].pages > 1 {
+			// equal chunks only: then the chunks are visible in the resulting placement (runs of pages per GPU)
+			pages, g := w.bufs[op.B-1].pages, len(op.Gpus)
+			if pages%g != 0 {
+				return false
+			}
+			for _, t := range op.Gpus {
+				if t < 1 || t >= len(w.devs) || !w.freeRun(t, pages/g) {
+					return false
+				}
+			}
 		}
 	}
 	switch op.A {
@@ -727,7 +775,16 @@ func randomScenario(rng *rand.Rand, i int) *Scenario {
 		// the buddy allocator is written for 4 KiB pages and halves blocks: power-of-two memories only
 		sc.PS = 12
 		for g := range sc.Gpus {
-			sc.Gpus[g] = []int{2, 4, 8}[rng.Intn(3)]
+			sc.Gpus[g] = []int{2, 4, 8, 16}[rng.Intn(4)]
+		}
+		if profile == 6 { // multi-page blocks: room for several of them
+			if ng < 2 {
+				sc.Gpus = append(sc.Gpus, 8)
+				ng = 2
+			}
+			for g := range sc.Gpus {
+				sc.Gpus[g] = []int{8, 16}[rng.Intn(2)]
+			}
 		}
 	}
 	if ng >= 2 && rng.Intn(3) > 0 {
@@ -746,7 +803,9 @@ func randomScenario(rng *rand.Rand, i int) *Scenario {
 	case 6:
 		// two processes with adjacent pids whose virtual cursors cross 2^31, 2^32 or 2^33 bytes
 		sc.Ctxs = []int{1, 2}
-		sc.PS = 16 // the largest page size of the property: fewest pages to burn
+		if !buddyMode {
+			sc.PS = 16 // the largest page size of the property: fewest pages to burn
+		}
 	case 1, 5:
 		sc.Ctxs = []int{1, 1}
 	case 2:
@@ -782,6 +841,33 @@ func (w *world) randomOp(rng *rand.Rand, profile int) Op {
 		}
 	}
 	r := rng.Intn(100)
+	if buddyMode && profile == 6 {
+		// multi-page buddy blocks: buffers of 2-4 pages remapped as a whole or in part, distributed in equal
+		// chunks, freed, remapped again, next to live neighbours
+		b := pickBuf()
+		switch {
+		case r < 26 || b == 0:
+			return Op{A: "Alloc", Ctx: ctx, Dev: gpus[rng.Intn(len(gpus))], N: 2 + rng.Intn(3), Rem: rng.Intn(3)}
+		case r < 46:
+			return Op{A: "Free", Ctx: ctx, B: b}
+		case r < 80:
+			pages := w.bufs[b-1].pages
+			off := 0
+			n := pages
+			if rng.Intn(3) == 0 && pages > 2 {
+				off = rng.Intn(pages - 1)
+				n = 2 + rng.Intn(pages-off-1)
+			}
+			return Op{A: "Remap", Ctx: ctx, B: b, Off: off, N: n, Rem: rng.Intn(3), Dev: gpus[rng.Intn(len(gpus))]}
+		case r < 92:
+			perm := rng.Perm(len(gpus))
+			return Op{A: "Dist", Ctx: ctx, B: b, Gpus: []int{gpus[perm[0]], gpus[perm[1]]}}
+		case r < 96:
+			return Op{A: "Mig", B: b, Off: rng.Intn(w.bufs[b-1].pages), Dev: gpus[rng.Intn(len(gpus))]}
+		default:
+			return Op{A: "Probe", Ctx: ctx, Dev: gpus[rng.Intn(len(gpus))]}
+		}
+	}
 	moves := profile == 3 || profile == 4
 	if profile == 5 || (profile == 4 && rng.Intn(8) == 0) {
 		// kernel launches and device-to-host copies: the context's buffer list is swept
@@ -843,9 +929,6 @@ func (w *world) randomOp(rng *rand.Rand, profile int) Op {
 // profileOf: the buddy allocator is written for 4 KiB pages only; burning gigabytes of virtual space page by page
 // would cost a million one-page blocks per call, so the wrap profile is left to the default allocator.
 func profileOf(i int) int {
-	if buddyMode {
-		return i % (nProfiles - 1)
-	}
 	return i % nProfiles
 }
 
@@ -879,7 +962,7 @@ func runRandom(rec *ab.Recorder, rng *rand.Rand, i, nops int, stats map[string]i
 	sc := randomScenario(rng, i)
 	w := newWorld(rec, sc, stats)
 	profile := profileOf(i)
-	if profile == 6 {
+	if profile == 6 && !buddyMode {
 		for _, op := range wrapPrologue(rng, sc, i) {
 			if w.dead {
 				break
